@@ -383,7 +383,9 @@ fn gen_env(seed: u64) -> Env {
         let rate = |r: &mut Rng, v: u64| if r.chance(30) { 0 } else { v };
         format!("{}:{}:{}:{}:{}", r.below(1 << 32), rate(&mut r, 15), rate(&mut r, 8), rate(&mut r, 15), rate(&mut r, 8))
     };
-    Env { entropy, sched, io }
+    // a fifth of the runs receive the extractor output through a pipe instead of a regular file
+    let pipe = r.chance(20);
+    Env { entropy, sched, io, pipe }
 }
 
 fn all_checks(known: &Known, lkm: bool) -> Vec<String> {
@@ -451,6 +453,7 @@ struct Agg {
     not_judgeable: u64,
     server_runs: u64,
     server_fallbacks: u64,
+    pipe_runs: u64,
     violations: Vec<Found>,
     samples: Vec<Value>,
     log: Vec<String>,
@@ -467,6 +470,9 @@ fn account_run(agg: &mut Agg, wl_hash: u64, mode: &CliMode, env: &Env, out: &Run
     agg.runs += 1;
     if out.via_server {
         agg.server_runs += 1;
+    }
+    if env.pipe {
+        agg.pipe_runs += 1;
     }
     if let Some(s) = &out.stats {
         for (k, v) in [s.getrandom, s.read, s.read_short, s.read_eintr, s.write, s.write_short, s.write_eintr].iter().enumerate() {
@@ -523,6 +529,7 @@ fn merge(into: &mut Agg, from: Agg) {
     into.multi_thread_runs += from.multi_thread_runs;
     into.not_judgeable += from.not_judgeable;
     into.server_runs += from.server_runs;
+    into.pipe_runs += from.pipe_runs;
     into.server_fallbacks += from.server_fallbacks;
     into.violations.extend(from.violations);
     into.samples.extend(from.samples);
@@ -718,6 +725,7 @@ fn simplify_case(ctx: &Ctx, wd: &WorkDir, oracle_kind: &str, case: &Case, lkm: b
     let simpler_envs = |e: &Env| -> Vec<Env> {
         let mut v = Vec::new();
         if e.io != "0" { v.push(Env { io: "0".into(), ..e.clone() }); }
+        if e.pipe { v.push(Env { pipe: false, ..e.clone() }); }
         if e.sched != "sticky" { v.push(Env { sched: "sticky".into(), ..e.clone() }); }
         if e.entropy != 0 { v.push(Env { entropy: 0, ..e.clone() }); }
         v
@@ -965,6 +973,7 @@ pub fn run_check(prop: &str, tier: &str, workloads_override: Option<u64>, dump: 
     }
     faults.insert("hash_seed_perturbation_runs".into(), json!(total.runs));
     faults.insert("scheduler_kinds".into(), json!(total.sched_kinds));
+    faults.insert("extractor_output_delivered_through_a_pipe_runs".into(), json!(total.pipe_runs));
     let mut extra = serde_json::Map::new();
     extra.insert("workloads".into(), json!(total.workloads));
     extra.insert("runs_per_hour".into(), json!((total.runs as f64 / wall * 3600.0) as u64));
